@@ -419,7 +419,7 @@ struct PipeWorld : World {
 				if (R.crashed || R.mi >= R.msgs.size() || R.mpos < R.msgs[R.mi].size()) break;
 				st.hit("op:W_TERM"); w_term(); break;
 			case OP_WABORT: {
-				if (R.crashed || R.mi >= R.msgs.size() || R.framing == ref::COMMAND) break;      // (dropping messages is exercised for the COBS framings)
+				if (R.crashed || R.mi >= R.msgs.size()) break;
 				if (!R.mpos) {
 					// nothing in progress: the request means the last finished message, which can go only while all of it is still queued
 					bool whole = !R.completed.empty() && R.frame_bytes.back() <= R.complete_bytes;
@@ -440,7 +440,8 @@ struct PipeWorld : World {
 				abstract(OP_WABORT, r < 0 ? 0 : 1);
 				if (r < 0) {
 					// refusing is the honest answer once finished blocks of this message have been flushed; the message then simply continues
-					if (!R.partial_sent) fail("abort-refused", "dropping the message in progress failed (%zd) although none of it had left the queue", r);
+					// (command text has no block structure: its encoder finds the start of the message by the preceding delimiter, so with nothing in front it cannot tell)
+					if (!R.partial_sent && !(R.framing == ref::COMMAND && !R.complete_bytes)) fail("abort-refused", "dropping the message in progress failed (%zd) although none of it had left the queue", r);
 					st.hit("probe:abort_refused_after_partial_flush");
 					break;
 				}
@@ -682,14 +683,14 @@ struct PipeWorld : World {
 				if (R.crashed || R.mi >= R.msgs.size() || R.mpos < R.msgs[R.mi].size()) break;
 				st.hit("op:W_TERM"); w_term(failn); break;
 			case OP_WABORT: {
-				if (R.crashed || R.mi >= R.msgs.size() || !R.mpos || R.framing == ref::COMMAND) break;      // (dropping a message in progress is exercised for the COBS framings)
+				if (R.crashed || R.mi >= R.msgs.size() || !R.mpos) break;
 				st.hit("op:W_ABORT");
 				ssize_t r; { Sut s; SUT_GUARD_ABORT(r = mpt_stream_push(&ws, 1, 0)); }
 				check_queue(ws._wd, "stream write");
 				log.ev("W_ABORT m%zu after %zu bytes -> %zd", R.mi, R.mpos, r);
 				abstract(OP_WABORT, r < 0 ? 0 : 1);
 				if (r < 0) {
-					if (!R.partial_sent) fail("abort-refused", "dropping the message in progress failed (%zd) although none of it had left the queue", r);
+					if (!R.partial_sent && !(R.framing == ref::COMMAND && !R.complete_bytes)) fail("abort-refused", "dropping the message in progress failed (%zd) although none of it had left the queue", r);
 					st.hit("probe:abort_refused_after_partial_flush");
 					break;
 				}
